@@ -67,6 +67,7 @@ struct SaveSpec {
 	size_t failAfter = std::string::npos;
 	WriteMap* map = nullptr;
 	bool keepLog = false;
+	bool nonSeekable = false;        // the output stream cannot seek (pipe, socket, compressing stream): tellp() == -1
 };
 struct SaveOut {
 	int rc = -1;
